@@ -1,6 +1,7 @@
 package jschema
 
 import (
+	stdJSON "encoding/json"
 	stdErrors "errors"
 	"fmt"
 	"io"
@@ -126,7 +127,18 @@ func (s *Schema) AddType(name string, sc jschema.Schema) (err error) {
 			return fmt.Errorf("generate example for Regex type: %w", err)
 		}
 
-		typSc := New(name, fmt.Sprintf("%q // {regex: %q}", example, pattern))
+		// The example and the pattern have to be JSON strings: %q produces Go
+		// escapes (\a, \v, \x00) which are not valid in a schema.
+		exampleJSON, err := stdJSON.Marshal(string(example))
+		if err != nil {
+			return fmt.Errorf("encode example for Regex type: %w", err)
+		}
+		patternJSON, err := stdJSON.Marshal(pattern)
+		if err != nil {
+			return fmt.Errorf("encode pattern for Regex type: %w", err)
+		}
+
+		typSc := New(name, fmt.Sprintf("%s // {regex: %s}", exampleJSON, patternJSON))
 		if err := typSc.load(); err != nil {
 			return fmt.Errorf("load added type: %w", err)
 		}
